@@ -35,13 +35,280 @@ var knownFuncsTxt string
 
 func knownFuncs() map[string]bool {
 	m := map[string]bool{}
+	for k := range knownSigs() {
+		m[k] = true
+	}
+	return m
+}
+
+// knownSigs: function key -> signature text ("" when the table has none).
+func knownSigs() map[string]string {
+	m := map[string]string{}
 	for _, l := range strings.Split(knownFuncsTxt, "\n") {
-		l = strings.TrimSpace(l)
-		if l != "" && !strings.HasPrefix(l, "#") {
-			m[l] = true
+		l = strings.TrimRight(l, "\r ")
+		if l == "" || strings.HasPrefix(l, "#") {
+			continue
+		}
+		parts := strings.SplitN(l, "\t", 2)
+		sig := ""
+		if len(parts) == 2 {
+			sig = parts[1]
+		}
+		m[strings.TrimSpace(parts[0])] = sig
+	}
+	return m
+}
+
+//go:embed known_fields.txt
+var knownFieldsTxt string
+
+// knownFields: "<pkg path>.<Struct>.<field>" -> type text.
+func knownFields() map[string]string {
+	m := map[string]string{}
+	for _, l := range strings.Split(knownFieldsTxt, "\n") {
+		l = strings.TrimRight(l, "\r ")
+		if l == "" || strings.HasPrefix(l, "#") {
+			continue
+		}
+		parts := strings.SplitN(l, "\t", 2)
+		if len(parts) == 2 {
+			m[strings.TrimSpace(parts[0])] = parts[1]
 		}
 	}
 	return m
+}
+
+func typeText(t types.Type) string {
+	return types.TypeString(t, func(p *types.Package) string { return p.Path() })
+}
+
+// genKnown prints the two reference tables for the library packages of repoDir.
+func genKnown(repoDir, arch string) (funcs, fields string, err error) {
+	cfg := &packages.Config{Mode: packages.LoadSyntax, Dir: repoDir, Env: loadEnv(arch)}
+	pkgs, err := packages.Load(cfg, "./...")
+	if err != nil {
+		return "", "", err
+	}
+	var fl, dl []string
+	for _, pk := range pkgs {
+		for _, f := range pk.Syntax {
+			for _, d := range f.Decls {
+				switch x := d.(type) {
+				case *ast.FuncDecl:
+					if x.Body == nil || x.Name.Name == "init" {
+						continue
+					}
+					sig := ""
+					if obj, ok := pk.TypesInfo.Defs[x.Name].(*types.Func); ok {
+						sg := obj.Type().(*types.Signature)
+						sig = typeText(types.NewSignatureType(nil, nil, nil, sg.Params(), sg.Results(), sg.Variadic()))
+					}
+					fl = append(fl, funcKey(pk.PkgPath, x)+"\t"+sig)
+				case *ast.GenDecl:
+					for _, sp := range x.Specs {
+						ts, ok := sp.(*ast.TypeSpec)
+						if !ok {
+							continue
+						}
+						st, ok := ts.Type.(*ast.StructType)
+						if !ok {
+							continue
+						}
+						for _, fld := range st.Fields.List {
+							for _, n := range fld.Names {
+								if v, ok := pk.TypesInfo.Defs[n].(*types.Var); ok {
+									dl = append(dl, pk.PkgPath+"."+ts.Name.Name+"."+n.Name+"\t"+typeText(v.Type()))
+								}
+							}
+						}
+					}
+				}
+			}
+		}
+	}
+	sort.Strings(fl)
+	sort.Strings(dl)
+	return strings.Join(fl, "\n") + "\n", strings.Join(dl, "\n") + "\n", nil
+}
+
+// renameBack undoes pure renamings of unexported (or any) functions, methods and
+// struct fields: a declaration the tables do not know whose signature (type)
+// and owner coincide with exactly one known declaration that has disappeared
+// is given the known name again.  Alpha-renaming preserves behaviour; it lets
+// the rule tables keep addressing anchors by the names of the reference tree.
+func renameBack(pkgs []*packages.Package, isLib func(*packages.Package) bool, srcOf func(string) []byte) (map[string][]byte, []string) {
+	sigs, flds := knownSigs(), knownFields()
+	out := map[string][]byte{}
+	var log []string
+	for _, pk := range pkgs {
+		if !isLib(pk) {
+			continue
+		}
+		ren := map[types.Object]string{}
+		// ---- functions and methods
+		type cur struct {
+			obj        types.Object
+			group, sig string
+			name       string
+		}
+		var unknown []cur
+		present := map[string]bool{}
+		for _, f := range pk.Syntax {
+			for _, d := range f.Decls {
+				fd, ok := d.(*ast.FuncDecl)
+				if !ok || fd.Body == nil || fd.Name.Name == "init" {
+					continue
+				}
+				key := funcKey(pk.PkgPath, fd)
+				present[key] = true
+				if _, known := sigs[key]; known {
+					continue
+				}
+				obj, ok := pk.TypesInfo.Defs[fd.Name].(*types.Func)
+				if !ok {
+					continue
+				}
+				sg := obj.Type().(*types.Signature)
+				unknown = append(unknown, cur{obj, strings.TrimSuffix(key, "."+fd.Name.Name), typeText(types.NewSignatureType(nil, nil, nil, sg.Params(), sg.Results(), sg.Variadic())), fd.Name.Name})
+			}
+		}
+		for _, u := range unknown {
+			var cands []string
+			for key, sig := range sigs {
+				if present[key] || sig == "" || sig != u.sig {
+					continue
+				}
+				i := strings.LastIndex(key, ".")
+				if i < 0 || key[:i] != u.group {
+					continue
+				}
+				cands = append(cands, key[i+1:])
+			}
+			rivals := 0
+			for _, v := range unknown {
+				if v.group == u.group && v.sig == u.sig {
+					rivals++
+				}
+			}
+			if len(cands) == 1 && rivals == 1 {
+				ren[u.obj] = cands[0]
+				log = append(log, fmt.Sprintf("%s: %s is the known %s under another name: renamed back", pk.PkgPath, u.name, cands[0]))
+			}
+		}
+		// ---- struct fields
+		for _, f := range pk.Syntax {
+			for _, d := range f.Decls {
+				gd, ok := d.(*ast.GenDecl)
+				if !ok {
+					continue
+				}
+				for _, sp := range gd.Specs {
+					ts, ok := sp.(*ast.TypeSpec)
+					if !ok {
+						continue
+					}
+					st, ok := ts.Type.(*ast.StructType)
+					if !ok {
+						continue
+					}
+					prefix := pk.PkgPath + "." + ts.Name.Name + "."
+					have := map[string]bool{}
+					type fcur struct {
+						obj       types.Object
+						name, typ string
+					}
+					var unk []fcur
+					for _, fld := range st.Fields.List {
+						for _, n := range fld.Names {
+							have[n.Name] = true
+							if _, known := flds[prefix+n.Name]; known {
+								continue
+							}
+							if v, ok := pk.TypesInfo.Defs[n].(*types.Var); ok {
+								unk = append(unk, fcur{v, n.Name, typeText(v.Type())})
+							}
+						}
+					}
+					for _, u := range unk {
+						var cands []string
+						for key, typ := range flds {
+							if strings.HasPrefix(key, prefix) && !have[key[len(prefix):]] && typ == u.typ {
+								cands = append(cands, key[len(prefix):])
+							}
+						}
+						rivals := 0
+						for _, v := range unk {
+							if v.typ == u.typ {
+								rivals++
+							}
+						}
+						if len(cands) == 1 && rivals == 1 {
+							ren[u.obj] = cands[0]
+							log = append(log, fmt.Sprintf("%s: field %s.%s is the known %s under another name: renamed back", pk.PkgPath, ts.Name.Name, u.name, cands[0]))
+						}
+					}
+				}
+			}
+		}
+		if len(ren) == 0 {
+			continue
+		}
+		// ---- apply, refusing a renaming that would be captured by another declaration
+		type edit struct {
+			from, to int
+			text     string
+		}
+		bad := map[types.Object]bool{}
+		perFile := map[string][]edit{}
+		for _, f := range pk.Syntax {
+			fname := pk.Fset.Position(f.Pos()).Filename
+			ast.Inspect(f, func(n ast.Node) bool {
+				id, ok := n.(*ast.Ident)
+				if !ok {
+					return true
+				}
+				obj := pk.TypesInfo.Uses[id]
+				if obj == nil {
+					obj = pk.TypesInfo.Defs[id]
+				}
+				nn, ok := ren[obj]
+				if !ok {
+					return true
+				}
+				// a bare identifier (not a selector) must not resolve to something else under the new name
+				if fobj, isF := obj.(*types.Func); isF && fobj.Type().(*types.Signature).Recv() == nil {
+					if sc := pk.Types.Scope().Innermost(id.Pos()); sc != nil {
+						if _, at := sc.LookupParent(nn, id.Pos()); at != nil {
+							bad[obj] = true
+						}
+					}
+				}
+				perFile[fname] = append(perFile[fname], edit{pk.Fset.Position(id.Pos()).Offset, pk.Fset.Position(id.End()).Offset, nn})
+				return true
+			})
+		}
+		for fname, eds := range perFile {
+			src := srcOf(fname)
+			if src == nil {
+				continue
+			}
+			sort.Slice(eds, func(i, j int) bool { return eds[i].from > eds[j].from })
+			res := string(src)
+			for _, e := range eds {
+				// skip edits of refused objects: find by text position is enough (the object is looked up again below)
+				res = res[:e.from] + e.text + res[e.to:]
+			}
+			out[fname] = []byte(res)
+		}
+		if len(bad) > 0 {
+			// conservative: give up all renamings of this package
+			for fname := range perFile {
+				delete(out, fname)
+			}
+			log = append(log, pk.PkgPath+": renaming back abandoned (a known name is shadowed at a use site)")
+		}
+	}
+	return out, log
 }
 
 // funcKey: "<pkg path>.<Recv>.<name>" or "<pkg path>.<name>".
@@ -1329,6 +1596,24 @@ func normalizeRepo(repoDir, arch string) (map[string][]byte, []string) {
 		return pk.PkgPath == modPath+"/knx" || strings.HasPrefix(pk.PkgPath, modPath+"/knx/")
 	}
 	changedAny := false
+	// names first: declarations that only changed their name get the reference name back
+	if pkgs, ok := load(); ok {
+		files, lg := renameBack(pkgs, isLib, srcOf)
+		log = append(log, lg...)
+		for fn, b := range files {
+			overlay[fn] = b
+			changedAny = true
+		}
+		if len(files) > 0 {
+			if _, ok := load(); !ok {
+				log = append(log, "renaming back abandoned: the renamed program does not type-check")
+				for fn := range files {
+					delete(overlay, fn)
+				}
+				changedAny = false
+			}
+		}
+	}
 	for round := 0; round < 5; round++ {
 		pkgs, ok := load()
 		if !ok {
@@ -1414,6 +1699,7 @@ func normalizeRepo(repoDir, arch string) (map[string][]byte, []string) {
 // reports whether some function declaration is not in the known table.
 func hasUnknownFuncs(repoDir string, known map[string]bool) bool {
 	found := false
+	kf := knownFields()
 	root := filepath.Join(repoDir, "knx")
 	filepath.Walk(root, func(path string, info os.FileInfo, err error) error {
 		if err != nil || found {
@@ -1433,6 +1719,23 @@ func hasUnknownFuncs(repoDir string, known map[string]bool) bool {
 			if fd, ok := d.(*ast.FuncDecl); ok && fd.Body != nil && fd.Name.Name != "init" {
 				if !known[funcKey(pkgPath, fd)] {
 					found = true
+				}
+			}
+			if gd, ok := d.(*ast.GenDecl); ok {
+				for _, sp := range gd.Specs {
+					ts, ok := sp.(*ast.TypeSpec)
+					if !ok {
+						continue
+					}
+					if st, ok := ts.Type.(*ast.StructType); ok {
+						for _, fld := range st.Fields.List {
+							for _, n := range fld.Names {
+								if _, has := kf[pkgPath+"."+ts.Name.Name+"."+n.Name]; !has {
+									found = true
+								}
+							}
+						}
+					}
 				}
 			}
 		}
